@@ -26,7 +26,7 @@ impl Property for C02 {
     }
     fn generate(&self, tier: Tier, seed: u64) -> Vec<Value> {
         let cfg = gs::Cfg::faithful();
-        gen::draw(seed, "C02", tier.pick(350, 12000), move |g| gen_value_case(g, &cfg, "de", 6, 4, "F"))
+        gen::draw(seed, "C02", tier.pick(350, 12000), move |g| gen_value_case(g, &cfg, "de", 6, 12, "F"))
     }
     fn prepare(&self, case: &Value) -> Unit {
         prepare_values(case, &want_serde, &["de"]).unit
